@@ -218,6 +218,8 @@ struct RouteAcc {
     unselected_asked: u64,
     end_to_end: u64,
     direct: u64,
+    failing: u64,
+    failing_err: u64,
 }
 impl RouteAcc {
     fn flush(&self, out: &mut Out) {
@@ -229,6 +231,8 @@ impl RouteAcc {
         out.count("route_unselected_sink_asked_for_writer", self.unselected_asked);
         out.count("route_expressions_end_to_end", self.end_to_end);
         out.count("route_expressions_direct", self.direct);
+        out.count("route_cells_with_a_failing_sink", self.failing);
+        out.count("route_cells_whose_write_reported_the_sink_error", self.failing_err);
     }
 }
 
@@ -341,7 +345,18 @@ fn route_end_to_end(e: &Expr, cfgs: &[Cfg], n: u64, sig: u64, acc: &mut RouteAcc
             let fields = vec![("message".to_string(), Val::Disp(format!("route {id}"))), ("n".to_string(), Val::U64(n))];
             let names: Vec<String> = fields.iter().map(|(k, _)| k.clone()).collect();
             let meta = dyn_meta(false, "event c13", RTARGETS[tgt], lvl, false, None, &names);
+            // failing sinks (record the write, then report an I/O error): same denotation
+            let mask = (n.wrapping_add((lvl * 3 + tgt) as u64) % 4) as usize;
+            for (si, s) in sinks.iter().enumerate() {
+                s.set_fail(mask >> si & 1 == 1);
+            }
+            if mask != 0 {
+                acc.failing += 1;
+            }
             let r = run::catch(|| with_fields(meta, &fields, |vs| Event::dispatch(meta, vs)));
+            for s in sinks.iter() {
+                s.set_fail(false);
+            }
             if let Err(p) = r {
                 out.violation("panic while routing an event", json!({"expression": e.show(), "panic": p}));
                 return false;
@@ -364,9 +379,25 @@ fn route_direct(e: &Expr, sinks: &[RecSink], metas: &[[&'static Metadata<'static
     for lvl in 1..=5usize {
         for tgt in 0..RTARGETS.len() {
             let rec = b"direct #E0x0# record\n";
-            {
+            // failing sinks: a sink that records the write and then reports an I/O error. The
+            // denotation is unchanged (`and`: "both writers will still be written to before the
+            // error is returned"; the other combinators only decide at make_writer time).
+            let mask = (sig.wrapping_add((lvl * 3 + tgt) as u64) % 4) as usize;
+            for (si, s) in sinks.iter().enumerate() {
+                s.set_fail(mask >> si & 1 == 1);
+            }
+            let res = {
                 let mut w = node.make_writer_for(metas[lvl - 1][tgt]);
-                let _ = io::Write::write_all(&mut w, rec);
+                io::Write::write_all(&mut w, rec)
+            };
+            for s in sinks.iter() {
+                s.set_fail(false);
+            }
+            if mask != 0 {
+                acc.failing += 1;
+                if res.is_err() {
+                    acc.failing_err += 1;
+                }
             }
             let cell = sig.wrapping_mul(31).wrapping_add((lvl * 3 + tgt) as u64);
             if !judge_cell(e, lvl, tgt, sinks, Some(rec), "#E0x0#", "make_writer_for + write_all", cell, acc, out) {
